@@ -343,6 +343,17 @@ func (p *Prog) calleeName(c *ssa.CallCommon) string {
 		return p.funcName(v.Fn.(*ssa.Function))
 	case *ssa.Builtin:
 		return "builtin." + v.Name()
+	case *ssa.UnOp:
+		// call through a function-typed struct field: <pkg>.<Struct>.<Field>
+		if fa, ok := v.X.(*ssa.FieldAddr); ok {
+			if pt, ok := under(fa.X.Type()).(*types.Pointer); ok {
+				if n, ok := types.Unalias(pt.Elem()).(*types.Named); ok {
+					if st, ok := n.Underlying().(*types.Struct); ok {
+						return p.pkgName(n.Obj().Pkg()) + "." + n.Obj().Name() + "." + st.Field(fa.Field).Name()
+					}
+				}
+			}
+		}
 	}
 	return "dynamic"
 }
